@@ -44,7 +44,7 @@ def attr_value(typ):
 
 @st.composite
 def raw_case(draw):
-    kind = draw(st.sampled_from(["points", "polyline", "surface", "surface", "anyfaces", "tets", "tets", "hexes"]))
+    kind = draw(st.sampled_from(["points", "polyline", "surface", "surface", "anyfaces", "tets", "tets", "hexes", "mixed_cells"]))
     V, F, C = [], [], []
     manifold = False
     if kind == "points":
@@ -61,6 +61,14 @@ def raw_case(draw):
     elif kind == "tets":
         t = draw(GT.tets(max_cells=16))
         V, C, manifold = t["V"], t["C"], True
+    elif kind == "mixed_cells":
+        # tetrahedra and hexahedra in one cell list (disjoint union, cells interleaved in a drawn order)
+        Vh, Ch = hex_grid(draw(st.integers(1, 2)), 1, 1)
+        t = draw(GT.tets(max_cells=5))
+        off = len(Vh)
+        V = Vh + [[x + 10.0 for x in v] for v in t["V"]]
+        C = Ch + [[v + off for v in c] for c in t["C"]]
+        random.Random(draw(st.integers(0, 999))).shuffle(C)
     else:
         V, C = hex_grid(draw(st.integers(1, 2)), draw(st.integers(1, 2)), draw(st.integers(1, 2)))
         if draw(st.booleans()):
@@ -440,6 +448,27 @@ def fn(case, ctx):
     if not ok or m is None:
         return
     check_normal_form(case, m, ctx)
+
+    # the same caller-owned Python lists handed to two constructions (raw-container route): the caller's lists must not change,
+    # and the second object must be normalised like the first
+    if case["route"] in ("ctor", "instanciate") and case["form"] == "list" and not case["attrs"] and nf["dim"] >= 1:
+        import mouette as M
+        from mouette.mesh.mesh_data import RawMeshData
+        from mouette.mesh.mesh import _instanciate_raw_mesh_data
+        Vl = [list(v) for v in case["V"]]; El = [list(e) for e in case["E"]]; Fl = [list(f) for f in case["F"]]; Cl = [list(c) for c in case["C"]]
+        snap = json_copy = lambda x: [list(r) for r in x]
+        s0 = (snap(Vl), snap(El), snap(Fl), snap(Cl))
+        for attempt in (1, 2):
+            raw = RawMeshData()
+            raw.vertices += Vl; raw.edges += El; raw.faces += Fl; raw.cells += Cl
+            ok2, mm = ctx.call("construct:shared-lists", _instanciate_raw_mesh_data, raw)
+            if not ok2:
+                break
+            ctx.check(len(Vl) == len(s0[0]) and El == s0[1] and Fl == s0[2] and Cl == s0[3], "construct:argument-changed",
+                      f"construction #{attempt} changed the caller's lists: edges {len(El)} (was {len(s0[1])}), faces {len(Fl)} (was {len(s0[2])})")
+            if attempt == 2:
+                check_normal_form(case, mm, ctx, tag="[second construction from the same list objects] ")
+        ctx.label("shared-lists-twice")
 
     # container forms: equal containers and equal later answers
     if case["route"] in ("ctor", "instanciate") and case["form"] != "list":
